@@ -184,16 +184,17 @@ var fixCheck = hx.NewCheck("fix_preserves_tokens", oracleFix)
 
 var hostileStrings = []string{
 	"'a  b'", "'select  from   where'", "'x \n  from   y \n\n\n\nend'", "'trailing   \nnext'", "'tab\there'", "'it''s  ok'", "'\n\n\n'", "'-- not a comment  '",
-	"'/* not  a comment */'", "'  lead'", "'mixed \t \n\t indent'", "'size 5\"  wide'", "'ünï  cödé'",
+	"'/* not  a comment */'", "'  lead'", "'mixed \t \n\t indent'", "'size 5\"  wide'", "'ünï  cödé'", "$té$ select  x \n  y $té$", "$q$ from  where $q$",
 }
 var hostileIdents = []string{`"select"`, `"from  x"`, `"Order By"`, `"a  b"`, `"owner's  col"`}
 var hostileComments = []string{"-- it's  a  comment", "-- select  from where", "/* a  b\n\n\n\n  c */", "/* it's */", "/* trailing   \n   spaces */", "--\ttabbed  'quote", "/* \"dq  \" */", "-- trailing   "}
-var seps = []string{" ", " ", "  ", "   ", "\n", "\n    ", "\n\t", "\n \t", "\n\t ", " \n", "  \n", "\t\n", "\n\n", "\n\n\n", "\n \n\n\n", "\r\n", " \r\n", "\n        ", "\n\t\t"}
+var seps = []string{" ", " ", "  ", "   ", "\n", "\n    ", "\n\t", "\n \t", "\n\t ", " \n", "  \n", "\t\n", "\n\n", "\n\n\n", "\n \n\n\n", "\r\n", " \r\n", "\n        ", "\n\t\t", "\n\t  ", "\n \t  ", "\n\t   "}
 
 func genHostile(rt *rapid.T) (string, []string) {
 	f := sqlgen.FullFeatures()
 	f.MaxDepth = 2
 	f.KeywordCase = true
+	f.NoBackslashQuote = !hx.Allowed("c17.backslash_quote")
 	nst := rapid.IntRange(1, 3).Draw(rt, "nstmts")
 	var b strings.Builder
 	cl := map[string]bool{}
@@ -212,6 +213,10 @@ func genHostile(rt *rapid.T) (string, []string) {
 				if strings.Contains(text, "\n") {
 					cl["multiline_literal"] = true
 				}
+			} else if strings.HasPrefix(text, "$") && len(text) <= 3 && rapid.IntRange(0, 1).Draw(rt, "hp") == 0 {
+				// a named placeholder spelled like a keyword: one token whose name is not a keyword
+				text = rapid.SampledFrom([]string{"@End", "@from", "@Select", "@x"}).Draw(rt, "hph")
+				cl["keyword_spelled_placeholder"] = true
 			} else if strings.HasPrefix(text, `"`) && rapid.IntRange(0, 1).Draw(rt, "hi") == 0 {
 				text = rapid.SampledFrom(hostileIdents).Draw(rt, "hid")
 				cl["keyword_spelled_quoted_ident"] = true
@@ -239,11 +244,19 @@ func genHostile(rt *rapid.T) (string, []string) {
 			b.WriteString(rapid.SampledFrom([]string{";", " ;", ";  ", ";\n\n\n"}).Draw(rt, "semi_sp"))
 		}
 	}
-	b.WriteString(rapid.SampledFrom([]string{"", "\n", "  \n", "\n\n\n", " "}).Draw(rt, "tail"))
+	b.WriteString(rapid.SampledFrom([]string{"", "\n", "  \n", "\n\n\n", " ", "\n\n", "\r\n\r\n", "\r\n"}).Draw(rt, "tail"))
 	text := b.String()
 	if rapid.IntRange(0, 7).Draw(rt, "longline") == 0 {
 		text += "\nSELECT " + strings.Repeat("col_a, ", rapid.IntRange(12, 16).Draw(rt, "ncols")) + "b FROM t1"
 		cl["long_line"] = true
+	}
+	if rapid.IntRange(0, 9).Draw(rt, "boundaryline") == 0 {
+		// lines whose length is within one of the limit, in characters: CRLF endings and non-ASCII text must not matter
+		n := maxLen + rapid.IntRange(-1, 1).Draw(rt, "boundarydelta")
+		head := rapid.SampledFrom([]string{"SELECT ", "SELECT 'é', "}).Draw(rt, "boundaryhead")
+		line := head + strings.Repeat("a", n-utf8.RuneCountInString(head)-len(" FROM t1")) + " FROM t1"
+		text += "\n" + line + rapid.SampledFrom([]string{"\n", "\r\n", ""}).Draw(rt, "boundaryeol")
+		cl["boundary_length_line"] = true
 	}
 	var cs []string
 	for k := range cl {
@@ -323,6 +336,9 @@ func oracleExact(c ExactCase) error {
 		run = 0
 	}
 	for i, l := range lines {
+		if i == len(lines)-1 && l == "" && i > 0 {
+			break // the text ends with a newline: what follows it is not a line
+		}
 		// L001: the line, minus one optional CR, ends in a space or tab that is not content
 		e := len(l)
 		if e > 0 && l[e-1] == '\r' {
@@ -344,11 +360,8 @@ func oracleExact(c ExactCase) error {
 		} else {
 			flush()
 		}
-		// L005: longer than the maximum (asserted only where bytes and runes agree)
-		bl, rl := len(l), utf8.RuneCountInString(l)
-		if (bl > maxLen) != (rl > maxLen) {
-			skipLong[i+1] = true
-		} else if bl > maxLen {
+		// L005: longer than the maximum, in characters, the CR of a CRLF ending not counted
+		if utf8.RuneCountInString(strings.TrimSuffix(l, "\r")) > maxLen {
 			want["L005"][lineCol{i + 1, 0}] = true
 		}
 		// L010: two or more consecutive spaces in code, after the indentation
